@@ -112,13 +112,32 @@ class Markers:
         return str(70000 + self.n)
 
 
+def number_value(text):
+    """value of an integer numeral (decimal, hex, binary, `_` separators), None otherwise"""
+    t = text.replace(b"_", b"").lower()
+    try:
+        if t.startswith(b"0x"):
+            return int(t[2:], 16)
+        if t.startswith(b"0b"):
+            return int(t[2:], 2)
+        return int(t)
+    except ValueError:
+        return None
+
+
 def marker_lines(text):
-    """marker number -> list of lines on which the marker literal appears (reference lexer)"""
+    """marker -> list of lines on which the marker appears (reference lexer).  Names `M<n>` and strings 'M<n>' are
+    keyed by their token text (a rule that turns "M5" into the field name M5 makes a different token); integer
+    numerals whose VALUE is in 70000..79999 are keyed by that value, whatever their spelling (`70_001`, `0x11171`,
+    `0b...`: convert_luau_number rewrites the spelling, the numeral is the same piece of code)"""
     toks, _ = L.lex(text.encode("utf-8"))
     out = {}
     for t in toks:
-        if MARKER_RE.match(t.text):
-            # keyed by the token text: a rule that turns "M5" into the field name M5 makes a different token
+        if t.kind == "number":
+            v = number_value(t.text)
+            if v is not None and 70000 <= v < 80000:
+                out.setdefault("#%d" % v, []).append(t.line)
+        elif MARKER_RE.match(t.text):
             out.setdefault(t.text.decode("ascii"), []).append(t.line)
     return out
 
@@ -400,6 +419,24 @@ LIST_EDITS = [
 ]
 
 
+# lowering rules that rewrite a token in place, on sources where the rewritten token starts a line
+# (number markers: 70001 = 0x11171 = 0b10001000101110001, ...)
+TOKEN_REWRITES = [
+    ("convert_luau_number", "local t = {\n 70_001, M2,\n 0x1_1172, M3,\n -- c\n 7_0_0_0_3, M4, --[[d]]\n 0X11_174\n}\nM5()\n"),
+    ("convert_luau_number", "f(\n 70_001,\n M2,\n --[[c]] 0x11_172)\nlocal s = M3 +\n 70_003 *\n 7_0004\nM4(s)\n"),
+    ("convert_luau_number", "return M1,\n 70_001,\n {\n  0x1_1172;\n  [70_003] = M2\n },\n M3\n"),
+    ("convert_luau_number", "local b = {\n 0b1_0001_0001_0111_0001, M2,\n 0B10001000101110010, M3,\n}\nM4()\n"),
+    ("remove_types", "local\n M1: number,\n M2: string = 70001,\n 70002\nfunction M3(M4: number,\n M5: string): number\n return 70003\nend\nM6()\n"),
+    ("remove_types", "local x = M1 ::\n any\ntype T = number\nlocal y = (\n M2 :: number\n)\nM3(x, y)\n"),
+    ("make_assignment_local", "local a = M1\nconst\n b = M2\nconst function\n g() return M3 end\nM4(a, b, g)\n"),
+    ("remove_attribute", "print(M1)\n@native\nfunction f()\n return M2\nend\n@checked @native local function g()\n return M3\nend\nM4()\n"),
+    ("remove_floor_division", "local q = M1\n //\n M2\nq //= M3\nM4(q)\n"),
+    ("remove_continue", "for i = 1, M1 do\n if M2 then\n  continue\n end\n M3()\nend\nM4()\n"),
+    ("remove_compound_assignment", "M1\n +=\n M2\nM3()\n"),
+]
+KEY_BINARY_LITERAL = "convert-luau-number-binary-literal:first-token-of-a-line"
+
+
 WITNESS_JOBS = [
     ({"rules": ["remove_spaces", "remove_method_call"]}, "obj -- c\n:m(M1)\nM2()\n"),
     ({"rules": ["remove_empty_do"]}, "--[==[\n]==]do\nend--[=[\n]=] local x = M1\nM2()\n"),
@@ -621,6 +658,19 @@ def run(ctx):
             if quick and pi >= 2 and (si + pi) % 2:
                 continue
             jobs.append(("targeted: removed statement, comments lines apart", {"rules": rules}, s, None))
+    for li, (label, src) in enumerate(G.last_token_sources()):
+        kind = "targeted: append at end after the last token of every node kind"
+        end = lambda t: {"rule": "append_text_comment", "text": t, "location": "end"}
+        jobs.append((kind, {"rules": [end("hi")]}, src, None))
+        jobs.append((kind, {"rules": [end("two\nlines")] if li % 2 else ["remove_spaces", end("hi")]}, src, None))
+        if "if-expression" in label:
+            jobs.append((kind, {"rules": [end("hi"), "remove_if_expression"]}, src, None))
+            jobs.append((kind, {"rules": [end("two\nlines"), "remove_spaces", "remove_if_expression"]}, src, None))
+    for rule, src in TOKEN_REWRITES:
+        kind = "targeted: lowering rule rewriting a token that starts a line"
+        jobs.append((kind, {"rules": [rule]}, src, None))
+        jobs.append((kind, {"rules": ["remove_spaces", rule]}, src, None))
+        jobs.append((kind, {"rules": ["remove_spaces", "remove_comments", rule, rng.choice(LINE_NEUTRAL)]}, src, None))
     for rule, src in LIST_EDITS:
         kind = "targeted: rule inserting / removing an item of a list that spans lines"
         jobs.append((kind, {"rules": [rule]}, src, None))
@@ -872,6 +922,7 @@ def still_fails(c, by_model=False):
 
 
 KEY_END_SEMI = "append-end-before-semicolon:local_a=1;"
+KEY_END_TYPE = "append-end-before-trailing-type:type_T_=_number"
 KEY_METHOD_SELF = "method-definition-self-param:multi-line-parameters"
 KEY_IF_FALSE = "unused-if-branch-constant-first-branch:then-token-trivia"
 KEY_ELSEIF_TRUE = "unused-if-branch-constant-elseif:else-token-line"
@@ -916,6 +967,8 @@ def classify_problem(c, s, out):
             return None
         if toks and toks[-1].text == b";":
             return KEY_END_SEMI
+        if L.ends_in_type_annotation(s):
+            return KEY_END_TYPE
     names = [x if isinstance(x, str) else x.get("rule") for x in rules] if "rules" in c else DEFAULT_RULES
     if "remove_spaces" in names:
         from . import c18
@@ -932,6 +985,8 @@ def classify_problem(c, s, out):
     if "remove_unused_if_branch" in names and has_constant_elseif(s, b"if") and not (
             "remove_spaces" in names and names.index("remove_spaces") < names.index("remove_unused_if_branch")):
         return KEY_IF_FALSE
+    if "convert_luau_number" in names and re.search(r"(?m)^\s*0[bB][01_]+", s):
+        return KEY_BINARY_LITERAL
     removers = [i for i, n in enumerate(names) if n in REMOVERS]
     if removers and not ("remove_comments" in names and names.index("remove_comments") < removers[0]):
         if multiline_comment_then_comment(s):
